@@ -1793,6 +1793,17 @@ PROPOSED = {
                 'existing property") although the same step is accepted on the directly migrated schema',
         'replay': 'A: module default { type Tag { property email -> bool; }; type Mid extending default::Tag; type Leaf extending default::Mid; } '
                   'B: the same with `property email := (false);`'},
+    'C02-explicit-default-on-target-delete': {
+        'property': 'C02',
+        'site': 'edb/schema/links.py / pointers.py (on_target_delete field: compare sees equal values, the explicit-vs-inherited '
+                'status kept in inherited_fields of the descendants is not migrated)',
+        'predicate': 'B declares `on target delete restrict` (the default value) explicitly on a link that is inherited by a '
+                     'subtype; A does not declare it',
+        'what': 'the computed migration is empty for this change; after COMMIT the subtype\'s inherited link lacks '
+                '`on_target_delete` in inherited_fields (the target has it); delta_schemas(result, target) is a non-empty '
+                'delta that prints no DDL',
+        'replay': 'A: module default { abstract type Tag { multi link tags -> default::Tag; }; type Card extending default::Tag; } '
+                  'B: the same with `multi link tags -> default::Tag { on target delete restrict; }`'},
     'C02-tree-form-bookkeeping': {
         'property': 'C02',
         'site': 'edb/schema/delta.py DeltaRoot.apply of the tree returned by delta_schemas (functions.py RenameCallableObject, '
@@ -1843,6 +1854,10 @@ def classify_monitor(form, cmpres, mon, a_text, b_text, script):
     if form in ('commit', 'text') and items and items <= {('Property', 'inherited_fields'), ('Link', 'inherited_fields')} \
             and ':= (' in b_text and (form == 'text' or 'reset optionality' in (cmpres.get('own_diff') or '')):
         return 'C02-computed-grandchild-optionality'
+    if form in ('commit', 'text') and items and items <= {('Property', 'inherited_fields'), ('Link', 'inherited_fields')} \
+            and 'on target delete restrict' in b_text and 'on target delete restrict' not in a_text \
+            and (form == 'text' or cmpres.get('own_diff') == ''):
+        return 'C02-explicit-default-on-target-delete'
     if form in ('commit', 'text') and 'drop extending' in (cmpres.get('own_diff') or '').lower() \
             and script and 'DROP EXTENDING' in script.upper() and 'RENAME TO' in script.upper():
         import re
@@ -1854,11 +1869,13 @@ def classify_monitor(form, cmpres, mon, a_text, b_text, script):
             j = up.upper().find('RENAME TO ' + nm.upper())
             if 0 <= i < j:
                 return 'C02-drop-extending-renamed-base'
-    if form == 'tree' and mon.get('commit') == 'eq' and mon.get('text') == 'eq':
-        # tree-only divergence: the committed schema and the text replay ARE the target; only the raw
-        # command tree applied directly (an internal form the system never commits) differs.  The
-        # (class, field) items are recorded in the evidence (tree_only_divergences).
-        return 'C02-tree-form-bookkeeping'
+    if form == 'tree':
+        # tree-only divergence: items that neither the committed schema nor the text replay show;
+        # only the raw command tree applied directly (an internal form the system never commits)
+        # differs there.  The (class, field) items are recorded in the evidence (tree_form_divergences).
+        other = _diff_items(mon.get('commit')) | _diff_items(mon.get('text'))
+        if items and not (items & other):
+            return 'C02-tree-form-bookkeeping'
     return None
 
 
